@@ -557,6 +557,9 @@ def explore_plan(ctx, plan):
     agg = ctx.product("schedule-roots", roots, execute, chunk=1, nsamples=1)
     rep = {}
     cases = []
+    # if ANY harness shows state carried between executions, every execution of every harness gets its own forked child:
+    # executions of different harnesses share worker processes, so one un-forked execution would warm the caches of the next
+    any_stateful = any(x["stateful"] for x in agg["x"])
     for x in agg["x"]:
         key = (x["harness"], x["gran"], x["bound"])
         r = rep.setdefault(key, {"harness": x["harness"], "granularity": x["gran"], "preemption_bound": x["bound"], "schedules": 0,
@@ -564,8 +567,9 @@ def explore_plan(ctx, plan):
         r["schedules"] += 1
         r["points_default_schedule"] = max(r["points_default_schedule"], x["points"])
         r["outcomes"].add(x["outcome"])
-        r["fork_each_execution"] = r.get("fork_each_execution", False) or x["stateful"]
-        cases += [{"k": "schedule_tree", "harness": x["harness"], "gran": x["gran"], "bound": x["bound"], "prefix": p, "fork": x["stateful"]}
+        r["fork_each_execution"] = any_stateful
+        r["state_carried_between_executions"] = r.get("state_carried_between_executions", False) or x["stateful"]
+        cases += [{"k": "schedule_tree", "harness": x["harness"], "gran": x["gran"], "bound": x["bound"], "prefix": p, "fork": any_stateful}
                   for p in x["prefixes"]]
     # big sub-trees first (short prefixes) for load balance
     cases.sort(key=lambda c: (len(c["prefix"]), c["harness"]))
